@@ -52,10 +52,13 @@ type Prog struct {
 	mockFile map[string]bool
 	NPkgs    int
 
-	idom      map[*ssa.Function]bool
-	loops     map[*ssa.Function]*loopInfo
-	impls     map[*types.Interface][]types.Type
-	callersOf map[*ssa.Function][]ssa.CallInstruction
+	idom            map[*ssa.Function]bool
+	loops           map[*ssa.Function]*loopInfo
+	impls           map[*types.Interface][]types.Type
+	callersOf       map[*ssa.Function][]ssa.CallInstruction
+	scanCutMemo     map[*ssa.Function]scanCutRes
+	resolving       map[*ssa.Function]bool
+	staticCallersOf map[*ssa.Function][]ssa.CallInstruction
 }
 
 // Load type-checks and builds SSA for the three library packages and all
@@ -109,7 +112,7 @@ func Load(lc LoadConfig) (*Prog, error) {
 	prog, _ := ssautil.AllPackages(pkgs, ssa.SanityCheckFunctions)
 	prog.Build()
 	p := &Prog{Cfg: lc, Fset: pkgs[0].Fset, Pkgs: pkgs, SSA: prog, NPkgs: n,
-		mockFile: map[string]bool{}, loops: map[*ssa.Function]*loopInfo{}, impls: map[*types.Interface][]types.Type{}}
+		mockFile: map[string]bool{}, loops: map[*ssa.Function]*loopInfo{}, impls: map[*types.Interface][]types.Type{}, scanCutMemo: map[*ssa.Function]scanCutRes{}, resolving: map[*ssa.Function]bool{}}
 	for _, pk := range pkgs {
 		sp := prog.Package(pk.Types)
 		if sp == nil {
